@@ -1212,7 +1212,21 @@ def schema_history(ns, ops, check):
                                % (h, res['seq'], exp), {'history': ops[:i + 1]})
             if prev is not None and h in prev and prev[h].get('xsd') != res.get('xsd'):
                 touched = set([id(tgt)] + [id(v) for v in vb]) if t in ('app', 'ins') else set()
-                if not (set(reach(ns, [C])) & touched):
+                refers = set(reach(ns, [C]))
+                if t == 'sub' and r[0] == 'ok':
+                    # by design an interface document lists the known subclasses (same namespace) of every
+                    # class it contains (Interface.add_class, for xsi:type substitution): a class statement
+                    # shows in the schema of everything that refers to one of its ancestors, or to a variant
+                    # of one -- and refuses to render (AssertionError) when that brings two distinct classes
+                    # of one name together, which the generated type_name keywords can produce
+                    a = r[1].__extends__ or r[1].__bases__[0]
+                    while a is not None and issubclass(a, ns.ComplexModelBase) and a is not ns.ComplexModel:
+                        touched.add(id(a))
+                        a = a.__extends__ if a.__extends__ is not None else a.__bases__[0]
+                    for c in list(reach(ns, [C]).values()):
+                        if c.__orig__ is not None:
+                            refers.add(id(c.__orig__))
+                if not (refers & touched):
                     check.fail('C15|frame|schema|%s' % t, 'the rendered XML Schema of pool class #%d changed at step %d (%s) '
                                'although the step did not evolve a class it refers to' % (h, i, t), {'history': ops[:i + 1]})
         prev = cur
